@@ -330,3 +330,378 @@ Proof.
   intros s o (((O & L & J1) & _ & J3 & J4) & _ & Hbc). apply (step_pub_form O L); assumption.
 Qed.
 End Win.
+
+(* ================================================================== 3. the network *)
+Section NetGov.
+Variable recover : bytes -> bytes -> option bytes.
+Variable keccak : bytes -> bytes.
+Variable gov_chain : Z.
+Variable gov_addr : bytes.
+Variable owns : nat -> addr.
+Variable signs : nat -> bytes -> bytes.
+
+Notation rec := (Processor.rec recover).
+Notation dg := (Processor.dg keccak).
+Notation qvalid := (ProcSpec.qvalid recover keccak).
+Notation node_step := (System.node_step recover keccak gov_chain gov_addr owns signs).
+Notation node_run := (System.node_run recover keccak gov_chain gov_addr owns signs).
+Notation nstep := (System.nstep recover keccak gov_chain gov_addr owns signs).
+Notation nrun := (System.nrun recover keccak gov_chain gov_addr owns signs).
+Notation trace := (System.trace recover keccak gov_chain gov_addr owns signs).
+Notation nstepf := (fun n x => fst (nstep n x)).
+Notation stepf i := (fun st o => fst (Processor.step recover keccak (signs i) (owns i) gov_chain gov_addr st o)).
+
+Lemma trace_all_ops i (Q : op -> Prop) (Qn : nop -> Prop) : (forall n x o, resolve n x = Some (i, o) -> Qn x -> Q o) ->
+  forall xs n, (forall x, In x xs -> target x = i -> Qn x) -> all_ops Q (ops_of i (trace n xs)).
+Proof.
+  intros HQ. induction xs as [|x xs IH]; intros n Hc; cbn [System.trace]; [exact I|].
+  assert (Hc' : forall y, In y xs -> target y = i -> Qn y) by (intros y Hy; apply Hc; right; exact Hy).
+  destruct (resolve n x) as [[j o]|] eqn:Hr; [|apply IH; exact Hc'].
+  destruct (j <? length (nodes n))%nat; [|apply IH; exact Hc'].
+  unfold ops_of. cbn [filter fst]. destruct (Nat.eqb_spec j i) as [->|_]; [|apply IH; exact Hc'].
+  cbn [map snd all_ops]. destruct (resolve_target n x i o Hr) as [Ht _]. split; [apply (HQ n x o Hr); apply Hc; [left; reflexivity|exact Ht]|apply IH; exact Hc'].
+Qed.
+
+(* node i's operator submits the request: the admin RPC hands v to the processor *)
+Definition ev_injects (i : nat) (v : vaa) (_ : net) (x : nop) : Prop := x = NEnv i (EInject v).
+
+(* at node i no OTHER own VAA is filed under v's digest (see [no_alias]) *)
+Definition no_alias_nop (v : vaa) (x : nop) : Prop :=
+  match x with
+  | NEnv _ (EInject v') => dg v' = dg v -> v' = v
+  | NEnv _ (EMsg m) => dg (vaa_of_message 0 m) <> dg v
+  | _ => True
+  end.
+
+(* "at this network step node i broadcasts v with a valid quorum of G" *)
+Definition ev_gov_published (i : nat) (v : vaa) (G : gset) (n : net) (x : nop) : Prop :=
+  target x = i /\ exists sg, In (SendVAA (marshal (set_sigs v sg))) (snd (nstep n x)) /\ qvalid (set_sigs v sg) (keys G).
+
+Hypothesis keccak_len : forall b, length (keccak b) = 32%nat.
+
+(* (a) the operators sign the same digest: whatever node the request is submitted to, the node signs [digest keccak v] with its own
+   key and gossips exactly that observation; v and its digest are functions of configuration and request *)
+Theorem operator_signs_request_digest n i st v : nth_error (nodes n) i = Some st ->
+  In (SendObs {| o_addr := owns i; o_hash := digest keccak v; o_sig := signs i (digest keccak v); o_tx := [] |})
+     (snd (nstep n (NEnv i (EInject v)))) /\
+  In (GObs {| o_addr := owns i; o_hash := digest keccak v; o_sig := signs i (digest keccak v); o_tx := [] |})
+     (pool (fst (nstep n (NEnv i (EInject v))))).
+Proof.
+  intros Hn. rewrite (nstep_unfold recover keccak gov_chain gov_addr owns signs n (NEnv i (EInject v)) i (Inject v) st eq_refl Hn).
+  cbn [fst snd pool]. unfold System.node_step. cbn [Processor.step]. unfold Processor.handle_injection, Processor.broadcast_signature. cbn [snd].
+  split; [left; reflexivity|]. apply in_or_app. right. cbn [flat_map gossip_of app]. left. reflexivity.
+Qed.
+
+Theorem net_gov_publishes N xs0 xs i G v (S : list nat) :
+  (i < N)%nat -> Forall nop_wf xs0 -> Forall nop_wf xs ->
+  let n0 := fst (nrun (ninit N) xs0) in
+  let n1 := fst (nrun n0 xs) in
+  let h := dg v in
+  (forall st0, nth_error (nodes n0) i = Some st0 -> cur st0 = Some G /\ alookup h (agg st0) = None) -> ProcSpec.gs_wf G ->
+  (forall x, In x xs -> target x = i -> calm_nop x = true) ->
+  (forall x, In x xs -> target x = i -> no_alias_nop v x) ->
+  NoDup (map owns S) -> (forall j, In j S -> honest_member recover owns signs G j) ->
+  go_quorum (Z.of_nat (length (keys G))) <= Z.of_nat (length S) -> In i S ->
+  happens nstepf (ev_injects i v) n0 xs ->
+  (forall j, In j S -> j <> i -> happens nstepf (ev_delivered owns signs i j h) n0 xs) ->
+  (forall st, nth_error (nodes n1) i = Some st -> forall o, In o (loopq st) -> o_hash o <> h) ->
+  happens nstepf (ev_gov_published i v G) n0 xs.
+Proof.
+  intros Hi Hw0 Hw. cbv zeta. intros Hst0 Hgwf Hcalm Hna ND Hhon Hq HiS Hinj Hdel Hlq.
+  set (n0 := fst (nrun (ninit N) xs0)) in *. set (h := dg v) in *.
+  pose proof (projection_init recover keccak gov_chain gov_addr owns signs N xs0 i Hi) as Hp0. fold n0 in Hp0.
+  set (ops0 := ops_of i (trace (ninit N) xs0)) in *.
+  set (st0 := fst (node_run i init ops0)) in *.
+  pose proof (projection recover keccak gov_chain gov_addr owns signs xs n0 i st0 Hp0) as Hp1.
+  set (ops := ops_of i (trace n0 xs)) in *.
+  destruct (Hst0 st0 Hp0) as [Hcur Hno].
+  destruct (Hhon i HiS) as (Hin_i & Hlen_i & Hsc_i).
+  assert (Hwf0 : Forall ProcSpec.op_wf ops0) by (apply projected_wf; exact Hw0).
+  assert (Hwf1 : Forall ProcSpec.op_wf ops) by (apply projected_wf; exact Hw).
+  assert (Hc : forallb calm ops = true) by (apply calm_trace; exact Hcalm).
+  assert (Hal : all_ops (no_alias keccak v) ops).
+  { apply (trace_all_ops i (no_alias keccak v) (no_alias_nop v)); [|exact Hna].
+    intros n x o Hr Hx. destruct x as [j e|j k|j g|j k]; cbn [resolve] in Hr.
+    - inversion Hr; subst. destruct e; cbn [op_of_env no_alias no_alias_nop] in *; try exact I; exact Hx.
+    - destruct (nth_error (pool n) k) as [g|]; [|discriminate]. inversion Hr; subst. destruct g; exact I.
+    - inversion Hr; subst. destruct g; exact I.
+    - inversion Hr; subst. exact I. }
+  assert (Hinj' : happens (stepf i) (ev_inj v) st0 ops).
+  { apply (happens_lift recover keccak gov_chain gov_addr owns signs i (ev_injects i v)); [|exact Hp0|exact Hinj].
+    intros n x st Hn Hx. unfold ev_injects in Hx. subst x. exists (Inject v). split; reflexivity. }
+  assert (Hothers : forall a, In a (map owns S) -> a <> owns i -> happens (stepf i) (ev_obs recover h a) st0 ops).
+  { intros a Ha Hne. apply in_map_iff in Ha as (j & <- & Hj).
+    assert (Hji : j <> i) by (intros ->; apply Hne; reflexivity).
+    destruct (Hhon j Hj) as (_ & Hlen_j & Hsc_j).
+    apply (happens_lift recover keccak gov_chain gov_addr owns signs i (ev_delivered owns signs i j h)); [|exact Hp0|exact (Hdel j Hj Hji)].
+    intros n x st Hn (k & tx & Hx & Hk). subst x. eexists. split; [cbn [resolve]; rewrite Hk; reflexivity|].
+    eexists. split; [reflexivity|]. cbn [o_hash o_addr o_sig]. split; [reflexivity|]. split.
+    - unfold bytes_to_address. rewrite Hlen_j. reflexivity.
+    - apply Hsc_j. unfold h, Processor.dg, digest. apply keccak_len. }
+  pose proof (inject_window_publishes recover keccak (signs i) (owns i) gov_chain gov_addr G v keccak_len Hlen_i Hsc_i Hin_i ops0 ops (map owns S)
+                Hwf0 Hwf1 Hc Hal Hcur Hno Hgwf Hinj' ND) as Hpub.
+  apply (happens_lower recover keccak gov_chain gov_addr owns signs i
+           (fun s o => exists sg, In (SendVAA (marshal (set_sigs v sg))) (snd (Processor.step recover keccak (signs i) (owns i) gov_chain gov_addr s o)) /\
+                                  qvalid (set_sigs v sg) (keys G))
+           (ev_gov_published i v G)) with (st := st0); [|exact Hp0|].
+  - intros n x st' o Hn Hr (sg & Hin & Hqv). destruct (resolve_target n x i o Hr) as [Ht _]. split; [exact Ht|]. exists sg. split; [|exact Hqv].
+    rewrite (nstep_unfold recover keccak gov_chain gov_addr owns signs n x i o st' Hr Hn). exact Hin.
+  - apply Hpub.
+    + intros a Ha. apply in_map_iff in Ha as (j & <- & Hj). destruct (Hhon j Hj) as (H1 & _). exact H1.
+    + rewrite map_length. exact Hq.
+    + exact Hothers.
+    + apply (Hlq _ Hp1).
+Qed.
+
+(* ================================================================== 5a. different requests: separate aggregation entries *)
+(* entries are keyed by digest: handling a VAA / an observation of another digest leaves the entry of h untouched — no hash assumption *)
+Theorem other_digest_other_entry (sign : bytes -> bytes) (own : addr) st o h :
+  match o with Inject v' => dg v' <> h | Obs ob => o_hash ob <> h | _ => False end ->
+  (exists O L, ProcC01Proofs.Inv1 recover keccak O L st) ->
+  alookup h (agg (fst (Processor.step recover keccak sign own gov_chain gov_addr st o))) = alookup h (agg st).
+Proof.
+  intros Ho (O & L & HI). destruct o as [g|t|m|w|ob|k|b|]; try contradiction; cbn [Processor.step].
+  - unfold Processor.handle_injection, Processor.broadcast_signature. cbn [fst agg]. rewrite alookup_aset.
+    destruct (bytes_eqb_spec h (dg w)) as [E|_]; [exfalso; apply Ho; symmetry; exact E|reflexivity].
+  - destruct (ProcC02Proofs.accepted recover st ob) as [[a g]|] eqn:Ea; [|rewrite (handle_obs_rejected recover st ob Ea); reflexivity].
+    destruct (handle_obs_accepted recover keccak O L st ob a g HI Ea) as (e' & Hst & _). rewrite Hst. cbn [agg]. rewrite alookup_aset.
+    destruct (bytes_eqb_spec h (o_hash ob)) as [E|_]; [exfalso; apply Ho; symmetry; exact E|reflexivity].
+Qed.
+
+(* what is recorded under a digest verifies over THAT digest: in every state of every node after every network history, a signature
+   filed in the entry of h recovers to its signer over h itself.  So the signature an operator made for another request (another
+   digest) is filed — and later published — with h only if it ALSO verifies over h: a property of the recovery oracle. *)
+Theorem recorded_signatures_verify_over_their_digest N xs i st h e a s : Forall nop_wf xs ->
+  nth_error (nodes (fst (nrun (ninit N) xs))) i = Some st -> In (h, e) (agg st) -> In (a, s) (esigs e) -> rec h s = Some a.
+Proof.
+  intros Hw Hn He Hs. destruct (net_reachable_inv recover keccak gov_chain gov_addr owns signs N xs i st Hw Hn) as [O HO].
+  destruct HO as [Ja _ _ _]. rewrite Forall_forall in Ja. destruct (Ja _ He) as [Es _ _ _]. cbn [fst snd] in Es.
+  rewrite Forall_forall in Es. exact (Es _ Hs).
+Qed.
+End NetGov.
+
+(* a published VAA consists of signatures over ITS OWN digest, by the members its indices name *)
+Lemma published_signatures_over_own_digest recover keccak w K s : ProcSpec.qvalid recover keccak w K -> In s (sigs w) ->
+  exists a, Processor.rec recover (Processor.dg keccak w) (s_data s) = Some a /\ nth_error K (Z.to_nat (s_idx s)) = Some a.
+Proof. intros [(_ & F & _) _] Hs. rewrite Forall_forall in F. destruct (F s Hs) as [_ H]. exact H. Qed.
+
+(* requests that differ in a body field have different bodies (C04: the body determines every field it carries) *)
+Theorem different_requests_different_bodies v1 v2 : wf v1 -> wf v2 ->
+  (ts v1, nonce v1, echain v1, tchain v1, eaddr v1, seq v1, cl v1, payload v1) <>
+  (ts v2, nonce v2, echain v2, tchain v2, eaddr v2, seq v2, cl v2, payload v2) -> body v1 <> body v2.
+Proof.
+  intros W1 W2 Hne E. apply Hne. destruct (body_inj_wf v1 v2 W1 W2 E) as (H1 & H2 & H3 & H4 & H5 & H6 & H7 & H8). congruence.
+Qed.
+
+(* ================================================================== 4. the contract side *)
+(* the request values are what protobuf / the Go types can carry: uint32 timestamp, set index, nonce; uint64 sequence; ChainID
+   uint16; Address [32]byte *)
+Definition req_wf (c : gcfg) (e : genv) : Prop :=
+  rng 4 (e_ts e) /\ rng 4 (e_gsi e) /\ rng 4 (e_nonce e) /\ rng 8 (e_seq e) /\ rng 2 (e_tchain e) /\ rng 2 (g_chain c) /\ length (g_addr c) = 32%nat.
+
+Lemma envelope_wf c e v : envelope_ok c e v -> req_wf c e -> payload v <> [] -> wf (set_sigs v []).
+Proof.
+  intros (E1 & E2 & E3 & E4 & E5 & E6 & E7 & E8 & E9 & E10 & E11) (R1 & R2 & R3 & R4 & R5 & R6 & R7) Hp.
+  constructor; cbn [set_sigs version gsidx sigs ts tns nonce echain tchain eaddr seq cl payload].
+  - exact E1.
+  - rewrite E3. exact R2.
+  - cbn [Datatypes.length]. lia.
+  - constructor.
+  - rewrite E4. exact R1.
+  - exact E5.
+  - rewrite E6. exact R3.
+  - rewrite E7. exact R6.
+  - rewrite E8. exact R5.
+  - rewrite E9. exact R7.
+  - rewrite E10. exact R4.
+  - rewrite E11. unfold rng. cbn. lia.
+  - exact Hp.
+Qed.
+
+Definition module_of (k : gov_kind) : rv :=
+  match k with KGuardianSet | KMessageFee | KTransferFee | KContractUpgrade => ral_module_gov | _ => ral_module_tb end.
+Definition action_of (k : gov_kind) : rv :=
+  match k with
+  | KGuardianSet => ral_action_submitNewGuardianSet | KMessageFee => ral_action_submitSetMessageFee
+  | KTransferFee => ral_action_submitTransferFees | KContractUpgrade => ral_action_submitContractUpgrade
+  | KRegisterChain => ral_action_parseAndVerifyRegisterChain | KBridgeUpgrade => ral_action_upgradeContract
+  | KDestroy => ral_action_destroyUnexecutedSequenceContracts | KMinLevel => ral_action_updateMinimalConsistencyLevel
+  | KRefund => ral_action_updateRefundAddress
+  end.
+(* the entry point's generated payload parser, with the state it reads from the executing contract *)
+Definition payload_parser (k : gov_kind) (ct : ral_contract) (tc p : rval) : option rres :=
+  match k with
+  | KGuardianSet => ral_submitNewGuardianSet tc p (RZ (rc_chain ct)) (RZ (rc_gs_index ct))
+  | KMessageFee => ral_submitSetMessageFee tc p (RZ (rc_chain ct))
+  | KTransferFee => ral_submitTransferFees tc p (RZ (rc_chain ct))
+  | KContractUpgrade => ral_submitContractUpgrade tc p (RZ (rc_chain ct))
+  | KRegisterChain => ral_parseAndVerifyRegisterChain tc p (RZ (rc_chain ct))
+  | KBridgeUpgrade => ral_upgradeContract tc p (RZ (rc_chain ct))
+  | KDestroy => ral_destroyUnexecutedSequenceContracts tc p (RZ (rc_chain ct))
+  | KMinLevel => ral_updateMinimalConsistencyLevel tc p (RZ (rc_chain ct))
+  | KRefund => ral_updateRefundAddress tc p (RZ (rc_chain ct))
+  end.
+
+(* the generic check returns (msgSequence, targetChainId, payload) of the VAA it was handed *)
+Lemma rassert_inv e k r : rassert e k = Some r -> k = Some r.
+Proof. unfold rassert. destruct e as [x|]; [|discriminate]. destruct x as [z|b|t]; try discriminate. destruct t; [auto|discriminate]. Qed.
+
+Lemma generic_result M A gc ga t w r : ral_generic M A gc ga t w = Some r -> r = ([RZ (seq w); RZ (tchain w); RB (payload w)], []).
+Proof.
+  unfold ral_generic. destruct M as [m|]; [|discriminate]. destruct A as [a|]; [|discriminate].
+  unfold ral_parseAndVerifyGovernanceVAAGeneric. intros H. repeat (apply rassert_inv in H).
+  unfold rlet, r_var in H. inversion H. reflexivity.
+Qed.
+
+Lemma concat_nth_slice (pre : bytes) : forall (K : list bytes) i a, Forall (fun k => length k = 20%nat) K -> nth_error K i = Some a ->
+  slice (pre ++ concat K) (length pre + 20 * i) (length pre + 20 * i + 20) = Some a.
+Proof.
+  intros K i a F Hn. destruct (nth_error_split K i Hn) as (l1 & l2 & -> & Hl).
+  apply Forall_app in F as [F1 F2]. inversion F2 as [|? ? Ha _]; subst.
+  rewrite concat_app. cbn [concat]. rewrite (app_assoc pre).
+  assert (Hlen : length (pre ++ concat l1) = (length pre + 20 * length l1)%nat) by (rewrite app_length, (concat_length20 l1 F1); reflexivity).
+  rewrite <- Hlen, <- Ha. apply slice_app_mid.
+Qed.
+
+Lemma slice_last (a x : bytes) n : length a = n -> slice (a ++ x) n (n + length x) = Some x.
+Proof. intros <-. rewrite <- (app_nil_r x) at 1. apply slice_app_mid. Qed.
+
+Section ContractSide.
+Variable recover : bytes -> bytes -> option bytes.
+Variable keccak : bytes -> bytes.
+Notation rec := (Processor.rec recover).
+Notation dg := (Processor.dg keccak).
+Notation qvalid := (ProcSpec.qvalid recover keccak).
+
+(* the signature loop of parseAndVerifyVAA passes on what the Go side accepts (C06's acceptance over the VAA's own digest) *)
+Lemma ral_sig_loop_accepts h (K : list bytes) : Forall (fun k => length k = 20%nat) K -> (length K <= 255)%nat ->
+  forall ss last, increasing last (map s_idx ss) -> -1 <= last -> Forall (signer_ok rec h K) ss ->
+  ral_sig_loop recover h (guardians_of K) last (map (fun s => (s_idx s, s_data s)) ss) = true.
+Proof.
+  intros FK LK. induction ss as [|s ss IH]; intros last Hinc Hlast F; [reflexivity|].
+  cbn [map ral_sig_loop]. cbn [map increasing] in Hinc. destruct Hinc as [Hlt Hinc]. inversion F as [|? ? [Hidx (a & Hr & Hn)] F']; subst.
+  change ral_index_strict with true. cbv iota. replace (last <? s_idx s) with true by (symmetry; apply Z.ltb_lt; exact Hlt). cbn [negb].
+  destruct (recover_checked_len _ _ _ _ Hr) as [_ L65].
+  change (fst ral_recid_slice) with 64%nat. change (snd ral_recid_slice) with 65%nat. change ral_recid_plus with 27.
+  (* the signature is r ++ s ++ [recid] *)
+  assert (Hsplit : exists rs rb, s_data s = rs ++ [rb] /\ length rs = 64%nat).
+  { exists (firstn 64 (s_data s)), (nth 64 (s_data s) x00). split; [|rewrite firstn_length; unfold bytes in *; lia].
+    rewrite <- (firstn_skipn 64 (s_data s)) at 1. f_equal.
+    assert (Hsk : length (skipn 64 (s_data s)) = 1%nat) by (rewrite skipn_length; unfold bytes in *; lia).
+    destruct (skipn 64 (s_data s)) as [|b [|? ?]] eqn:Es; try discriminate.
+    rewrite <- (firstn_skipn 64 (s_data s)) at 1. rewrite Es, app_nth2 by (rewrite firstn_length; unfold bytes in *; lia).
+    rewrite firstn_length. replace (64 - Nat.min 64 (length (s_data s)))%nat with 0%nat by (unfold bytes in *; lia). reflexivity. }
+  destruct Hsplit as (rs & rb & Hd & Lrs). rewrite Hd in *.
+  assert (Hsl : slice (rs ++ [rb]) 64 65 = Some [rb]) by exact (slice_last rs [rb] 64%nat Lrs).
+  rewrite Hsl.
+  (* the key slot *)
+  assert (Hi0 : 0 <= s_idx s) by lia.
+  assert (Hkey : slice (guardians_of K) (Z.to_nat (1 + s_idx s * 20)) (Z.to_nat (1 + s_idx s * 20 + 20)) = Some a).
+  { unfold guardians_of. replace (Z.to_nat (1 + s_idx s * 20)) with (length (be 1 (Z.of_nat (length K))) + 20 * Z.to_nat (s_idx s))%nat by (rewrite be_length; lia).
+    replace (Z.to_nat (1 + s_idx s * 20 + 20)) with (length (be 1 (Z.of_nat (length K))) + 20 * Z.to_nat (s_idx s) + 20)%nat by (rewrite be_length; lia).
+    apply concat_nth_slice; assumption. }
+  rewrite Hkey.
+  (* the recovery id *)
+  assert (Hrb : Z_of_byte rb < 4).
+  { unfold Processor.rec, recover_checked in Hr. destruct ((length h =? 32) && (length (rs ++ [rb]) =? 65))%nat; [|discriminate].
+    rewrite nth_error_app2 in Hr by lia. rewrite Lrs, Nat.sub_diag in Hr. cbn [nth_error] in Hr.
+    destruct (Z.ltb_spec (Z_of_byte rb) 4); [assumption|discriminate]. }
+  assert (Hun : unbe [rb] = Z_of_byte rb) by (unfold unbe; cbn [unbe_acc]; lia).
+  pose proof (Z_of_byte_range rb) as Hrng.
+  rewrite Hun. destruct (Z.leb_spec 256 (Z_of_byte rb + 27)) as [|_]; [lia|].
+  unfold eth_ec_recover. change ral_recid_plus with 27.
+  assert (Hf : firstn 64 (rs ++ [rb]) = rs) by (rewrite firstn_app, Lrs, Nat.sub_diag, firstn_O, app_nil_r; apply firstn_all2; lia).
+  rewrite Hf.
+  assert (Hsl2 : slice (rs ++ be 1 (Z_of_byte rb + 27)) 64 65 = Some (be 1 (Z_of_byte rb + 27))) by exact (slice_last rs (be 1 (Z_of_byte rb + 27)) 64%nat Lrs).
+  rewrite Hsl2.
+  rewrite unbe_be_small by (change (256 ^ Z.of_nat 1) with 256; lia).
+  assert (Hf2 : firstn 64 (rs ++ be 1 (Z_of_byte rb + 27)) = rs) by (rewrite firstn_app, Lrs, Nat.sub_diag, firstn_O, app_nil_r; apply firstn_all2; lia).
+  rewrite Hf2. replace (Z_of_byte rb + 27 - 27) with (Z_of_byte rb) by lia.
+  assert (Hb1 : be 1 (Z_of_byte rb) = [rb]) by (cbn [be app]; rewrite byte_of_Z_of_byte; reflexivity).
+  rewrite Hb1. unfold Processor.rec in Hr. rewrite Hr, bytes_eqb_refl. cbn [andb].
+  apply IH; [exact Hinc|lia|exact F'].
+Qed.
+
+Lemma ral_sigs_ok_published w K : qvalid w K -> wf w -> Forall (fun k => length k = 20%nat) K -> (length K <= 255)%nat ->
+  ral_sigs_ok recover keccak
+    {| Contracts.rv_gsidx := gsidx w; Contracts.rv_numsigs := Z.of_nat (length (sigs w));
+       Contracts.rv_sig_records := map (fun s => (s_idx s, s_data s)) (sigs w); Contracts.rv_hashed := body w;
+       Contracts.rv_echain := echain w; Contracts.rv_tchain := tchain w; Contracts.rv_eaddr := eaddr w; Contracts.rv_seq := seq w;
+       Contracts.rv_payload := payload w |} (guardians_of K) = true.
+Proof.
+  intros [(Hinc & F & _) _] W FK LK. unfold ral_sigs_ok. cbn [Contracts.rv_hashed Contracts.rv_sig_records].
+  change ral_last_index_init with (-1). apply ral_sig_loop_accepts; try assumption. lia.
+Qed.
+
+(* parseAndVerifyVAA(data, true) on what a guardian publishes under the set the contract holds as current: it returns the fields
+   the Go serializer wrote *)
+Theorem ral_receive_published ct w K : qvalid w K -> wf w -> Forall (fun k => length k = 20%nat) K -> (0 < length K <= 255)%nat ->
+  rc_gs_index ct = gsidx w -> rc_guardians ct = guardians_of K ->
+  ral_receive recover keccak ct (marshal w) =
+  Some (ral_vaa_returns (RZ (echain w)) (RZ (tchain w)) (RB (eaddr w)) (RZ (seq w)) (RB (payload w))).
+Proof.
+  intros Hq W FK [LK0 LK] Hgi Hg. unfold ral_receive. rewrite (LayoutProofs.ral_parse_marshal w W).
+  cbn [Contracts.rv_gsidx Contracts.rv_numsigs Contracts.rv_echain Contracts.rv_tchain Contracts.rv_eaddr Contracts.rv_seq Contracts.rv_payload].
+  unfold ral_gov_index_check, r_var. rewrite r_eq_Z, Hgi, Z.eqb_refl. cbn [rtrue negb].
+  rewrite Hg. unfold ral_guardian_size, guardians_of, r_var, r_num.
+  rewrite (r_slice_eq _ [] (be 1 (Z.of_nat (length K))) (concat K) 0 1) by (rewrite ?be_length; reflexivity).
+  rewrite r_u256from_be by (change (256 ^ Z.of_nat 1) with 256; lia).
+  unfold ral_guardian_size_check, r_ne, r_var, r_num. rewrite r_eq_Z.
+  destruct (Z.eqb_spec (Z.of_nat (length K)) 0) as [E|_]; [lia|]. cbn [r_not rtrue negb].
+  destruct (qvalid_passes_contract_quorum recover keccak w K Hq) as [_ Hr]. rewrite Hr. cbn [negb].
+  fold (guardians_of K). rewrite (ral_sigs_ok_published w K Hq W FK LK). reflexivity.
+Qed.
+
+(* the generic check on the wire bytes = the generic check on the VAA's envelope values (C15's [ral_generic]) *)
+Lemma ral_generic_call_published ct w K t M A : qvalid w K -> wf w -> Forall (fun k => length k = 20%nat) K -> (0 < length K <= 255)%nat ->
+  rc_gs_index ct = gsidx w -> rc_guardians ct = guardians_of K ->
+  ral_generic_call recover keccak ct (marshal w) (Some (RZ t)) M A = ral_generic M A (rc_gov_chain ct) (rc_gov_addr ct) t w.
+Proof.
+  intros Hq W FK LK Hgi Hg. unfold ral_generic_call, ral_generic. destruct M as [m|]; [|reflexivity]. destruct A as [a|]; [|reflexivity].
+  rewrite (ral_receive_published ct w K Hq W FK LK Hgi Hg). reflexivity.
+Qed.
+
+(* (b) + (c): the VAA of a governance request, signed by a quorum of G, submitted to the entry point of its kind on a contract
+   configured with the node's governance emitter, holding G as current set and expecting a sequence not above the request's: the
+   envelope parser accepts it (set index, quorum, signatures), the generic check passes (emitter, sequence, module, action), the
+   entry point's payload parser runs on exactly the payload and target chain of the request, and receivedSequence becomes the
+   request's sequence + 1 *)
+Theorem contract_executes_request k c e v sg G local tseq r :
+  envelope_ok c e v -> req_wf c e -> payload v <> [] ->
+  qvalid (set_sigs v sg) (keys G) -> Forall (fun a => length a = 20%nat) (keys G) -> (0 < length (keys G) <= 255)%nat -> e_gsi e = gidx G ->
+  accepted_by (module_of k) (action_of k) c e v -> tseq <= e_seq e ->
+  payload_parser k (contract_for c local tseq G) (RZ (e_tchain e)) (RB (payload v)) = Some r ->
+  ral_execute recover keccak k (contract_for c local tseq G) (marshal (set_sigs v sg)) = Some (r, Some (RZ (e_seq e + 1))).
+Proof.
+  intros He Hreq Hp Hq FK LK Hgsi Hacc Hts Hpar.
+  pose proof He as (E1 & E2 & E3 & E4 & E5 & E6 & E7 & E8 & E9 & E10 & E11).
+  assert (W : wf (set_sigs v sg)).
+  { apply (qvalid_wf recover keccak (set_sigs v sg) (keys G) Hq); [lia|]. apply (envelope_wf c e v He Hreq Hp). }
+  set (ct := contract_for c local tseq G) in *.
+  assert (Hgi : rc_gs_index ct = gsidx (set_sigs v sg)) by (cbn [ct contract_for rc_gs_index set_sigs gsidx]; congruence).
+  assert (Hg : rc_guardians ct = guardians_of (keys G)) by reflexivity.
+  destruct (Hacc tseq Hts) as [r0 Hr0].
+  assert (Hgen : forall A, ral_generic_call recover keccak ct (marshal (set_sigs v sg)) (Some (RZ tseq)) (module_of k) A =
+                           ral_generic (module_of k) A (g_chain c) (g_addr c) tseq v).
+  { intros A. rewrite (ral_generic_call_published ct (set_sigs v sg) (keys G) tseq (module_of k) A Hq W FK LK Hgi Hg). reflexivity. }
+  pose proof (generic_result _ _ _ _ _ _ _ Hr0) as Er0. subst r0.
+  assert (Hseq : r_add (r_var (RZ (seq v))) (r_num 1) = Some (RZ (e_seq e + 1))).
+  { unfold r_var, r_num. rewrite E10. apply r_add_ok. destruct Hreq as (_ & _ & _ & R4 & _). unfold rng in R4.
+    change (256 ^ Z.of_nat 8) with 18446744073709551616 in R4. unfold u256_max. lia. }
+  rewrite <- E8 in Hpar.
+  destruct k; cbn [module_of action_of payload_parser] in *; unfold ral_execute, gov_wrapper, tb_wrapper;
+    cbn [ct contract_for rc_recv_seq rc_chain rc_gs_index];
+    [unfold ral_entry_submitNewGuardianSet|unfold ral_entry_submitSetMessageFee|unfold ral_entry_submitTransferFees|unfold ral_entry_submitContractUpgrade
+    |unfold ral_entry_parseAndVerifyRegisterChain|unfold ral_entry_upgradeContract|unfold ral_entry_destroyUnexecutedSequenceContracts
+    |unfold ral_entry_updateMinimalConsistencyLevel|unfold ral_entry_updateRefundAddress];
+    match goal with |- match ?act with Some a => _ | None => None end = _ =>
+      let av := eval hnf in act in match av with Some ?a0 => change act with (Some a0) in * end end; cbv iota beta;
+    unfold ral_wrapper_gov, ral_wrapper_tb, r_var;
+    fold ct;
+    match goal with H : ral_generic ?M (Some ?a0) _ _ _ _ = Some _ |- _ =>
+      change c_gov_CoreModule with ral_module_gov; change c_tb_TokenBridgeModule with ral_module_tb;
+      rewrite (Hgen (Some a0)), H end;
+    cbv iota beta; unfold r_var in Hseq; rewrite Hseq;
+    cbn [ct contract_for rc_recv_seq rc_chain rc_gs_index] in Hpar; rewrite Hpar; reflexivity.
+Qed.
+End ContractSide.
